@@ -54,6 +54,23 @@ func (e extSpec) String() string {
 	return s
 }
 
+// headerString renders the extension as it goes into a header line written
+// by hand: "; " between parameters, values that are not tokens quoted.
+func (e extSpec) headerString() string {
+	s := e.Name
+	for _, kv := range e.Params {
+		s += "; " + kv[0]
+		if kv[1] != "" {
+			if tokenOnly(kv[1]) == kv[1] {
+				s += "=" + kv[1]
+			} else {
+				s += "=\"" + kv[1] + "\""
+			}
+		}
+	}
+	return s
+}
+
 // optString renders an httphead.Option in the same canonical form.
 func optString(o httphead.Option) string {
 	s := string(o.Name)
